@@ -181,6 +181,12 @@ func TestC06Pinned(t *testing.T) {
 		{Opts: wopts{BS: 4, Conc: 1, Legacy: true}, Data: gen.Data{Segs: []gen.Seg{{K: "text", N: 8 << 20, S: 4, P: 4}, {K: "rand", N: 8 << 20, S: 5}, {K: "text", N: 70000, S: 6, P: 3}}}},
 		{Opts: wopts{BS: 7, Conc: 1, BlockSum: true, ContentSum: true}, Data: gen.Data{Segs: []gen.Seg{{K: "rand", N: 4<<20 + 70000, S: 7}}}},
 	}
+	// full blocks stored raw with block checksums and without a content checksum (nothing after the end mark catches a reader
+	// that takes a missing block checksum for the end of the stream), compressible blocks in between, every option subset
+	for _, o := range []wopts{{BS: 4, Conc: 1, BlockSum: true}, {BS: 4, Conc: 1, BlockSum: true, Size: true}, {BS: 5, Conc: 1, BlockSum: true}, {BS: 4, Conc: 1}, {BS: 4, Conc: 1, BlockSum: true, ContentSum: true}} {
+		b := o.blockSize()
+		cases = append(cases, c06Case{Opts: o, Data: gen.Data{Segs: []gen.Seg{{K: "rand", N: 2 * b, S: 9}, {K: "text", N: b, S: 10, P: 4}, {K: "rand", N: b + 100, S: 11}}}})
+	}
 	if thorough() {
 		cases = append(cases, c06Case{Opts: wopts{BS: 4, Conc: 1, Legacy: true}, Data: gen.Data{Segs: []gen.Seg{{K: "rand", N: 24<<20 + 5, S: 8}}}})
 	}
@@ -196,7 +202,7 @@ func TestC06Pinned(t *testing.T) {
 		}
 		set := bufferSizedCuts(fz.fr, len(fz.z))
 		for _, fl := range fz.fr.Fields {
-			for _, p := range []int{fl.Off - 1, fl.Off, fl.Off + 1, fl.Off + fl.Len/3, fl.Off + fl.Len - 1} {
+			for _, p := range []int{fl.Off - 2, fl.Off - 1, fl.Off, fl.Off + 1, fl.Off + 2, fl.Off + 3, fl.Off + fl.Len/3, fl.Off + fl.Len - 1} {
 				if p >= 1 && p < len(fz.z) {
 					set[p] = true
 				}
